@@ -17,6 +17,8 @@ def handleMod : P String := do
   let weighted ← P.bool
   let res ← P.rat
   let comms ← P.listOf (P.listOf P.nat)
+  -- the implementation saw every weight divided by `wdiv` (a power of two): modularity is invariant
+  let _wdiv ← P.nat
   P.done
   let (so, a) := buildBoth sp nodes edges
   match so with
